@@ -260,7 +260,14 @@ func genNesting(t *rapid.T) string {
 // mutateText applies one text-level mutation to a valid text.
 func mutateText(t *rapid.T, toks []model.Tok, ls layoutSpec) string {
 	ls.Inner = nil // token indices shift under the mutations below
-	switch rapid.IntRange(0, 5).Draw(t, "mutation") {
+	switch rapid.IntRange(0, 7).Draw(t, "mutation") {
+	case 6, 7: // the text ends early: after a random token (inside an item of whatever type), possibly followed by blanks or a comment
+		i := rapid.IntRange(1, len(toks)).Draw(t, "cutAfter")
+		s, _ := render(toks[:i], layoutSpec{Seps: ls.Seps, Comments: ls.Comments, Glue: ls.Glue})
+		if j := strings.LastIndex(s, toks[i-1].Text); j >= 0 {
+			s = s[:j+len(toks[i-1].Text)]
+		}
+		return s + rapid.SampledFrom([]string{"", "", " ", "\n", " // c", "\t\n ", "\r\n", " //"}).Draw(t, "cutTail")
 	case 0: // delete a token
 		i := rapid.IntRange(0, len(toks)-1).Draw(t, "at")
 		nt := append(append([]model.Tok(nil), toks[:i]...), toks[i+1:]...)
